@@ -43,13 +43,21 @@ def la_ask(lines):
     return core.run_la('DriverLA.lean', lines)
 
 
+def to_np(v):
+    """PICOS / cvxopt value -> dense numpy 2-D array"""
+    import cvxopt
+    if isinstance(v, (cvxopt.matrix, cvxopt.spmatrix)):
+        return np.array(cvxopt.matrix(v), dtype=float)
+    return np.array(v, dtype=float, ndmin=2)
+
+
 def constraint_blocks(problem):
     """list of (lhs matrix value, rhs matrix value, relation) for every constraint of a PICOS problem whose
     variables have been given values"""
     out = []
     for c in problem.constraints.values():
         con = c.constraint if hasattr(c, 'constraint') else c
-        out.append((np.array(con.lhs.value, ndmin=2), np.array(con.rhs.value, ndmin=2), str(con)))
+        out.append((to_np(con.lhs.value), to_np(con.rhs.value), str(con)))
     return out
 
 
@@ -104,6 +112,8 @@ def scripted(script, u_name='U', p_name='P', obj_extra=None):
         return state[id(self)][3]
 
     def fake_get(self, name):
+        if name == 'gamma':
+            return np.array([1.0])
         return state[id(self)][2]
 
     saved = lmi.polite_stop
